@@ -18,6 +18,12 @@ def reprPacket : RenetVerif.Packet → Src.renet.packet.Packet
   | .unreliableSlice s c sl => .UnreliableSlice s c (reprSlice sl)
   | .ack s r => .Ack s (r.map reprRange)
 
+abbrev SSerErr := Src.renet.packet.SerializationError
+def reprSerErr : SerErr → SSerErr
+  | .bufferTooShort => .BufferTooShort | .invalidNumSlices => .InvalidNumSlices
+  | .sliceSizeAboveLimit => .SliceSizeAboveLimit | .emptySlice => .EmptySlice
+  | .invalidAckRange => .InvalidAckRange | .invalidPacketType => .InvalidPacketType
+
 abbrev SChannelError := Src.renet.error.ChannelError
 def reprCE : ChanErr → SChannelError
   | .maxMemory => .ReliableChannelMaxMemoryReached
